@@ -139,6 +139,13 @@ impl SegmentLogWriter {
                     format!("Failed to log to file: {}. {error}", self.file_path)
                 })
                 .map_err(|_| IggyError::CannotWriteToFile)?;
+            // tokio::fs::File completes a write in the background; wait until it reached the file.
+            file.flush()
+                .await
+                .with_error_context(|error| {
+                    format!("Failed to flush log file: {}. {error}", self.file_path)
+                })
+                .map_err(|_| IggyError::CannotWriteToFile)?;
 
             Ok(())
         } else {
